@@ -873,7 +873,7 @@ def place_origin(body, x, _depth=0):
     proj = list(pl["p"])
     while True:
         defs = body.defs().get(base, [])
-        if len(defs) > 1 and all(d[0] == "assign" and d[3]["rv"] == defs[0][3]["rv"] for d in defs if d[0] == "assign") and all(d[0] == "assign" for d in defs):
+        if len(defs) > 1 and all(d[0] == "assign" for d in defs) and all(d[3]["rv"] == defs[0][3]["rv"] for d in defs):
             defs = defs[:1]  # copies of one statement (tail duplication by the threading pass)
         if len(defs) != 1 or defs[0][0] != "assign" or (1 <= base <= body.arg_count):
             break
